@@ -576,6 +576,9 @@ impl Ctx {
                             rng_seed: RngSeed::Fixed(seed),
                             failure_persistence: None,
                             max_shrink_iters: 4096,
+                            // shrinking only polishes the replay file of a violation that is already
+                            // established; bounded so that a check on a broken tree ends promptly
+                            max_shrink_time: 60_000,
                             max_global_rejects: 1 << 20,
                             ..Config::default()
                         };
@@ -847,6 +850,7 @@ where
     let cfg = Config {
         failure_persistence: None,
         max_shrink_iters: 2048,
+        max_shrink_time: 60_000,
         ..Config::default()
     };
     // (vendor/proptest: the pass-through stream is consumed linearly and continues pseudo-randomly past its end)
